@@ -23,6 +23,7 @@ def parse_args(argv):
     ap.add_argument("--shard", default=None, help="i/n (internal)")
     ap.add_argument("--part-out", default=None, help="(internal) shard state file")
     ap.add_argument("--jobs", type=int, default=int(os.environ.get("VERIF_JOBS", "16")))
+    ap.add_argument("--variant", default=None, help="(internal) environment variant of this process")
     return ap.parse_args(argv)
 
 
@@ -35,16 +36,30 @@ def run_in_process(args, shard, nshards):
     ctx.classify = getattr(mod, "classify", None)
     ctx.rule = getattr(mod, "RULE", "")
     ctx.assumptions = list(getattr(mod, "ASSUMPTIONS", []))
-    from . import reach
+    from . import envs, reach
+    variant = getattr(args, "variant", None)
+    ctx.variant = variant
+    if variant:
+        import random
+        ctx.rng = random.Random("%s/%d/%d/%s/%s" % (args.prop, args.seed, shard, args.tier, variant))
+        if not envs.check_active(variant):
+            ctx.oracle_fault("environment variant %r is not in force in this process" % variant)
+            return ctx
+        ctx.note("environment variant in this process: " + envs.describe(variant))
     reaching = reach.start(args.prop) if os.environ.get("VERIF_REACH", "1") != "0" else False
     try:
-        mod.run(ctx)
+        envs.run_workload(variant, lambda: mod.run(ctx))
     except Exception:  # a crash of the monitor itself is never a verdict
         traceback.print_exc()
         ctx.oracle_fault("monitor crashed: " + traceback.format_exc(limit=3)[-400:])
     finally:
         if reaching:
             ctx.reach = reach.stop()
+    if variant:
+        ctx.count("variant:%s evaluations" % variant, ctx.evaluations)
+        for rec in ctx.violation_records:
+            if isinstance(rec.get("witness"), dict):
+                rec["witness"].setdefault("environment", envs.describe(variant))
     return ctx
 
 
@@ -91,18 +106,58 @@ def main(argv=None):
         mod = importlib.import_module("vmon.props." + args.prop)
         mod_shards = min(args.jobs, getattr(mod, "THOROUGH_SHARDS", 16))
     if mod_shards <= 1:
+        from . import envs
+        # quick tier: the main run in this process, plus one reduced-budget run per environment variant
+        variants = [] if os.environ.get("VERIF_VARIANTS", "1") == "0" else list(envs.VARIANTS)
+        vprocs = []
+        tmpdir = tempfile.mkdtemp(prefix="verif_%s_env_" % args.prop)
+        for v in variants:
+            part = os.path.join(tmpdir, "variant_%s.json" % v)
+            cmd = [sys.executable] + envs.interpreter_args(v) + [
+                "-m", "vmon.main", args.prop, "--tier", args.tier, "--seed", str(args.seed),
+                "--shard", "0/1", "--variant", v, "--part-out", part]
+            env = dict(os.environ, VERIF_BUDGET_SCALE=os.environ.get("VERIF_VARIANT_SCALE", "0.12"))
+            vprocs.append((v, part, subprocess.Popen(cmd, cwd=boot.VERIF_DIR, env=env)))
         ctx = run_in_process(args, 0, 1)
         state = ctx.part()
-        state["distinct"] = len(ctx.distinct)
-        return core.finish(state, time.time() - t0)
+        parts, dsets, failed = [state], [set(ctx.distinct)], 0
+        for v, part, proc in vprocs:
+            try:
+                proc.wait(timeout=900)
+            except subprocess.TimeoutExpired:
+                proc.kill()
+                proc.wait()
+            if proc.returncode != 0 or not os.path.exists(part):
+                failed += 1
+                continue
+            with open(part) as fh:
+                parts.append(json.load(fh))
+            dsets.append(core.load_distinct(part + ".distinct"))
+        for name in os.listdir(tmpdir):
+            os.unlink(os.path.join(tmpdir, name))
+        os.rmdir(tmpdir)
+        if len(parts) > 1:
+            state = core.merge_parts(parts, dsets)
+            state["nshards"] = 1
+        else:
+            state["distinct"] = len(ctx.distinct)
+        for v in variants:
+            state["thresholds"]["variant:%s evaluations" % v] = 1
+        return core.finish(state, time.time() - t0, failed_shards=failed)
     # ---- thorough: seed-sharded subprocesses (not multiprocessing.Pool) -----
     tmpdir = tempfile.mkdtemp(prefix="verif_%s_" % args.prop)
     procs = []
     for i in range(mod_shards):
         part = os.path.join(tmpdir, "part%d.json" % i)
-        cmd = [sys.executable, "-m", "vmon.main", args.prop, "--tier", "thorough",
-               "--seed", str(args.seed), "--shard", "%d/%d" % (i, mod_shards),
-               "--part-out", part]
+        from . import envs
+        # the upper half of the shards run under the environment variants (two shards each when there are 16)
+        variant = None
+        if mod_shards >= 8 and i >= mod_shards // 2:
+            variant = envs.VARIANTS[(i - mod_shards // 2) % len(envs.VARIANTS)]
+        cmd = [sys.executable] + (envs.interpreter_args(variant) if variant else []) + [
+            "-m", "vmon.main", args.prop, "--tier", "thorough",
+            "--seed", str(args.seed), "--shard", "%d/%d" % (i, mod_shards),
+            "--part-out", part] + (["--variant", variant] if variant else [])
         # each shard under another string-hash seed: set / dict-of-str iteration order is part of the
         # interpreter state a user's process has, and it is fixed (0) only in the quick tier
         procs.append((i, part, subprocess.Popen(cmd, cwd=boot.VERIF_DIR,
